@@ -153,7 +153,7 @@ def run(ctx):
     sel_nt = sum(1 for c in sel if c["i"] in nt)
     blocked_entries = sum(1 for c in sel for e in c["tab"] if any(o["why"] in ("B", "S") for o in e))
     cached = sum(1 for c in sel if c["cfg"]["cache"])
-    if blocked_entries == 0 or sel_nt == 0 or st["udp"] == 0 or st["reconfigurations"] == 0 or cached == 0:
+    if blocked_entries == 0 or sel_nt == 0 or st["udp"] == 0 or st["reconfigurations"] == 0 or cached == 0 or st["faults"] == 0:
         raise vlib.Inconclusive("vacuous replay: blocked=%d nontrivial=%d udp=%d reconfigurations=%d cached=%d" % (
             blocked_entries, sel_nt, st["udp"], st["reconfigurations"], cached))
     s0 = sel[0]
@@ -165,7 +165,7 @@ def run(ctx):
         "traces_validated_against_impl": st["configs"] + trace_q,
         "configurations_generated": len(cfgs), "configurations_replayed": len(sel),
         "live_servers": st["walks"], "configuration_visits": st["configs"],
-        "reconfigurations_on_live_servers": st["reconfigurations"], "configurations_with_cache": cached,
+        "reconfigurations_on_live_servers": st["reconfigurations"], "failed_rebuilds_injected": st["faults"], "configurations_with_cache": cached,
         "evaluations": st["evals"] + trace_q,
         "queries_per_configuration": nq,
         "distinct_nontrivial": sel_nt, "nontrivial_in_universe": len(nt),
